@@ -59,6 +59,7 @@ class PlannedServer(V.Server):
     self.discards = []                # mux: (time, conn, tag named, frame tag)
     self.frames = []                  # mux: every frame (time, conn, type, tag, bodylen)
     self.malformed = []
+    self.replies = []                 # answers actually sent: dicts time, conn, id, tag, seq
 
   def action_for(self, arg, ordinal):
     key = arg.split('|')[0] if isinstance(arg, str) else arg
@@ -67,6 +68,13 @@ class PlannedServer(V.Server):
     if ordinal in self.plan:
       return self.plan[ordinal]
     return self.default
+
+  def note_reply(self, conn, arg, tag=None):
+    w = V.W()
+    if conn.closed_by_client or conn.closed_by_peer:
+      return
+    self.replies.append({'time': w.clock.now, 'conn': conn.cid, 'id': arg.split('|')[0], 'tag': tag,
+                         'seq': w.next_seq() if hasattr(w, 'next_seq') else None})
 
   def later(self, ticks, fn):
     w = V.W()
@@ -120,7 +128,11 @@ class ThriftServer(PlannedServer):
       body = encode_reply(name, seq, value=echo(arg))
     data = pack('!i', len(body)) + body
     chunks = act.get('chunks')
-    self.later(delay, lambda: conn.send(data, chunks))
+
+    def send():
+      self.note_reply(conn, arg)
+      conn.send(data, chunks)
+    self.later(delay, send)
 
 
 T_DISPATCH, R_DISPATCH, T_PING, R_PING, T_DISCARDED, R_ERR = 2, -2, 65, -65, 66, -128
@@ -218,6 +230,7 @@ class MuxServer(PlannedServer):
     frame = mux_frame(R_DISPATCH, tag, body)
 
     def send():
+      self.note_reply(conn, arg, tag)
       conn.send(frame)
       if a == 'dup':
         conn.send(frame)
